@@ -281,11 +281,11 @@ CHECKS = {
     "C13": dict(
         modules=["AggkitModel.Properties.C13"],
         scenarios=[dict(name="aggsender"), dict(name="certcodec")],
-        generated=["CertFacts", "InitialStatus", "FlowBase"],
+        generated=["CertFacts", "InitialStatus", "FlowBase", "NextHeight"],
         leanchecker=True,
         level_text="Proved in Lean 4 over the same machine and the same unbounded histories as C02 (crash between iterations, crash between SendCertificate and SaveLastSentCertificate — also of a replacement —, loss of the database at any time, restarts, failing Agglayer calls): "
                    "C13_next_certificate_correct — in every reachable state in which the node runs, the certificate it builds next has the height, previous exit root and first block that the Agglayer's records require, and is built only when the Agglayer's last certificate is decided; C13_restart_reconciles — a successful start-up reconciliation leaves records that describe the Agglayer's last certificate; "
-                   "C13_reconciliation_succeeds — in every reachable stopped state the reconciliation succeeds unless an Agglayer call fails (so a refusal needs records that no history produces); C13_one_per_height; process_spec (the decision table of initialStatus.process is sound for every (settled?, pending?, local?) triple); C13_process_is_the_source (the Lean translation of initialStatus.process / checkAgglayerConsistenceCerts / getLatestAggLayerCert that tools/goextract REGENERATES from initial_state.go on every run — pointers as Option, nil dereference as failure — returns, for every input, what the model's decision table returns, and never dereferences nil); C13_next_start_is_the_source (likewise for baseFlow.getLastSentBlockAndRetryCount: the block after which the next certificate starts and its retry count, translated with its re-assigned local variables); C13_code_facts (regenerated metadata byte layout). "
+                   "C13_reconciliation_succeeds — in every reachable stopped state the reconciliation succeeds unless an Agglayer call fails (so a refusal needs records that no history produces); C13_one_per_height; process_spec (the decision table of initialStatus.process is sound for every (settled?, pending?, local?) triple); C13_process_is_the_source (the Lean translation of initialStatus.process / checkAgglayerConsistenceCerts / getLatestAggLayerCert that tools/goextract REGENERATES from initial_state.go on every run — pointers as Option, nil dereference as failure — returns, for every input, what the model's decision table returns, and never dereferences nil); C13_next_height_is_the_source (likewise for baseFlow.getNextHeightAndPreviousLER — nil check, status predicates, a pointer field, two calls into the environment with their error branches — equal to the model's nextHeightPrev for every last record and store content); C13_next_start_is_the_source (likewise for baseFlow.getLastSentBlockAndRetryCount: the block after which the next certificate starts and its retry count, translated with its re-assigned local variables); C13_code_facts (regenerated metadata byte layout). "
                    "Genuine defects found and fixed in /repo: F10 (after a stop between submitting the replacement of an InError certificate and recording it, start-up refused forever; and its follow-up F10b), F15 (the aggchain-prover flow refused to start once its last certificate began after the start block). "
                    "Tie: same scenario as C02 (real status checker CheckInitialStatus through Start's own sequence, real storage with the database file deleted for `losedb`, process killed by a panic inside the storage wrapper for a crash between submit and store, SQL-trigger statement faults inside the real save transaction); monitors: first certificate after every restart is checked against the Agglayer's log; a refused start-up is checked against an independent notion of contradiction; a failed save must leave the rows unchanged.",
         level_note="Trusted: Lean kernel; model/code correspondence (generator-bounded); atomicity of the save transaction is SQLite's (observed by the savefault monitor, not proved); a crash is modelled at the two points where the outcome differs (between iterations; between submit and store).",
